@@ -330,50 +330,7 @@ def check(ctx):
                    f"an item can be handed on without passing the fill loop (under {[(l, norm(t)) for l, t in tests][:2]}): that test does "
                    f"not establish that none of the named keys is missing, so an item keeps lacking a key it was to receive",
                    clause="fill_missing_keys: every named key is present in every item afterwards")
-    # ------------------------------------------------------------- ORD-sort
-    srt = repo.fn(f"{LOD}.sort")
-    calls = [c for f, c in calls_in(srt) if repo.dotted(f, c.func) == "builtins.sorted"]
-    other = [c for f, c in calls_in(srt) if isinstance(c.func, ast.Attribute) and c.func.attr == "sort" and "list" in norm(c.func.value)]
-    ctx.count("sorted() calls in ListOfDicts.sort", len(calls), 1)
-    sloops = [n for n in ast.walk(srt.node) if isinstance(n, ast.For) and isinstance(n.target, ast.Tuple) and len(n.target.elts) == 2]
-    KEYV, DIRV = (norm(e) for e in sloops[0].target.elts) if sloops else ("key", "dir")
-    for c in calls:
-        from ..forms import resolved_text
-        rv = kw(c, "reverse")
-        rvt = resolved_text(srt, rv, c) if rv is not None else None
-        ok = rv is not None and rvt in (f"{DIRV} < 0", f"{DIRV} == -1", f"0 > {DIRV}")
-        ctx.ob("ORD-sort", srt, norm(c), c, ok, "descending keys are sorted with reverse=True" if ok else
-               f"reverse={norm(rv) if rv is not None else None}: the direction is not (correctly) honoured",
-               clause="stable ordering by the given keys and directions")
-    loops = [n for n in ast.walk(srt.node) if isinstance(n, ast.For)]
-    from ..forms import expand as _expand_it
-    it_txt = norm(_expand_it(srt, loops[0].iter, loops[0])) if loops else ""
-    ok = bool(loops) and (it_txt.endswith("[::-1]") or it_txt.startswith("reversed("))
-    ctx.ob("ORD-sort", srt, f"for key, dir in {norm(loops[0].iter) if loops else '?'}", loops[0] if loops else srt.node, ok,
-           "one stable pass per key, least significant key first" if ok else
-           "keys are processed in the given order: with multi-pass stable sorting the LAST pass is the primary key, so the key "
-           "priority is inverted", clause="stable ordering by the given keys")
-    sk = srt.nested.get("sort_key")
-    if sk is None:
-        raise AnalysisError("anchor vanished: ListOfDicts.sort.sort_key")
-    from ..forms import value_cases
-    cases = value_cases(sk, "return")
-    rets = [n for n in body_nodes(sk.node) if isinstance(n, ast.Return)]
-    asc = [leaf for _, leaf, f in cases if ("T", f"{DIRV} > 0") in f or ("T", f"{DIRV} == 1") in f or ("F", f"{DIRV} < 0") in f]
-    desc = [leaf for _, leaf, f in cases if ("F", f"{DIRV} > 0") in f or ("T", f"{DIRV} < 0") in f or ("T", f"{DIRV} == -1") in f]
-    ok = False
-    why = "cannot recognise the (None-flag, value) key for the two directions"
-    if len(asc) == 1 and len(desc) == 1 and isinstance(asc[0], ast.Tuple) and isinstance(desc[0], ast.Tuple) and asc[0].elts and desc[0].elts:
-        a0, d0 = norm(asc[0].elts[0]), norm(desc[0].elts[0])
-        ok = a0.endswith("is None") and d0.endswith("is not None")
-        why = ("ascending: None flag True sorts last; descending (reverse=True): 'is not None' flag keeps None last" if ok else
-               f"flags {a0!r}/{d0!r}: None is not placed last in both directions")
-    ctx.ob("ORD-sort", sk, "; ".join(norm(leaf) for _, leaf, _ in cases)[:150] or "sort_key", rets[0] if rets else sk.node, ok, why, clause="with None last")
-    raises = [n for n in body_nodes(srt.node) if isinstance(n, ast.Raise)]
-    ok = any(any(("in" in t.split()) and DIRV in t and "1" in t for k, t in facts_at(srt, r)) for r in raises)
-    ctx.ob("ORD-sort", srt, "dir validated", raises[0] if raises else srt.node, ok, "directions other than 1/-1 are rejected" if ok else
-           "direction is not validated", nontrivial=False)
-    ctx.ob("ORD-sort", srt, "no in-place list.sort", srt.node, not other, "receiver is not sorted in place" if not other else "in-place sort")
+    check_sort(ctx, repo)
     # the constructor converts EVERY item to an AttributeDict unless the caller vouches for them with as_is
     init = repo.fn(f"{LOD}.__init__")
     convs = [c for _, c in calls_in(init) if repo.dotted(init, c.func) == "builtins.map" and c.args and norm(c.args[0]) == "AttributeDict"]
@@ -460,3 +417,61 @@ def check(ctx):
                f"keys are reduced with {norm(lossy[0])} before they are recorded: distinct keys can collide (hash(-1) == hash(-2)), so "
                f"items with different keys are dropped -- and aggregate(), which takes its groups from unique(), loses whole groups",
                clause="unique keeps the first item per key combination")
+
+
+def check_sort(ctx, repo):
+    """ORD-sort: ListOfDicts.sort (shared by C15 and C16, whose aggregate orders its groups with it)."""
+    ctx.rule("ORD-sort", "stable multi-pass sort, None last")
+    srt = repo.fn(f"{LOD}.sort")
+    calls = [c for f, c in calls_in(srt) if repo.dotted(f, c.func) == "builtins.sorted"]
+    other = [c for f, c in calls_in(srt) if isinstance(c.func, ast.Attribute) and c.func.attr == "sort" and "list" in norm(c.func.value)]
+    ctx.count("sorted() calls in ListOfDicts.sort", len(calls), 1)
+    sloops = [n for n in ast.walk(srt.node) if isinstance(n, ast.For) and isinstance(n.target, ast.Tuple) and len(n.target.elts) == 2]
+    KEYV, DIRV = (norm(e) for e in sloops[0].target.elts) if sloops else ("key", "dir")
+    for c in calls:
+        from ..forms import resolved_text
+        rv = kw(c, "reverse")
+        rvt = resolved_text(srt, rv, c) if rv is not None else None
+        ok = rv is not None and rvt in (f"{DIRV} < 0", f"{DIRV} == -1", f"0 > {DIRV}")
+        ctx.ob("ORD-sort", srt, norm(c), c, ok, "descending keys are sorted with reverse=True" if ok else
+               f"reverse={norm(rv) if rv is not None else None}: the direction is not (correctly) honoured",
+               clause="stable ordering by the given keys and directions")
+    loops = [n for n in ast.walk(srt.node) if isinstance(n, ast.For)]
+    from ..forms import expand as _expand_it
+    it_txt = norm(_expand_it(srt, loops[0].iter, loops[0])) if loops else ""
+    ok = bool(loops) and (it_txt.endswith("[::-1]") or it_txt.startswith("reversed("))
+    ctx.ob("ORD-sort", srt, f"for key, dir in {norm(loops[0].iter) if loops else '?'}", loops[0] if loops else srt.node, ok,
+           "one stable pass per key, least significant key first" if ok else
+           "keys are processed in the given order: with multi-pass stable sorting the LAST pass is the primary key, so the key "
+           "priority is inverted", clause="stable ordering by the given keys")
+    sk = srt.nested.get("sort_key")
+    if sk is None:
+        raise AnalysisError("anchor vanished: ListOfDicts.sort.sort_key")
+    from ..forms import value_cases
+    cases = value_cases(sk, "return")
+    rets = [n for n in body_nodes(sk.node) if isinstance(n, ast.Return)]
+    asc = [leaf for _, leaf, f in cases if ("T", f"{DIRV} > 0") in f or ("T", f"{DIRV} == 1") in f or ("F", f"{DIRV} < 0") in f]
+    desc = [leaf for _, leaf, f in cases if ("F", f"{DIRV} > 0") in f or ("T", f"{DIRV} < 0") in f or ("T", f"{DIRV} == -1") in f]
+    ok = False
+    why = "cannot recognise the (None-flag, value) key for the two directions"
+    if len(asc) == 1 and len(desc) == 1 and isinstance(asc[0], ast.Tuple) and isinstance(desc[0], ast.Tuple) and asc[0].elts and desc[0].elts:
+        a0, d0 = norm(asc[0].elts[0]), norm(desc[0].elts[0])
+        ok = a0.endswith("is None") and d0.endswith("is not None")
+        why = ("ascending: None flag True sorts last; descending (reverse=True): 'is not None' flag keeps None last" if ok else
+               f"flags {a0!r}/{d0!r}: None is not placed last in both directions")
+        # the component right after the flag is the value itself: anything computed from the value and compared BEFORE it
+        # (its type name, its text, its length) orders values by that first -- 2.5 before 1 because 'float' < 'int'
+        if ok:
+            want = f"{sk.params[0]}[{KEYV}]"
+            seconds = [norm(_expand_it(sk, t_.elts[1], rets[0])) if len(t_.elts) >= 2 else None for t_ in (asc[0], desc[0])]
+            if any(x != want for x in seconds):
+                ok = False
+                why = (f"the key tuple compares {[x for x in seconds if x != want][0]} before the value {want}: values the flag does not "
+                       f"separate are ordered by that component first (with type(value).__name__, every float sorts before every int), "
+                       f"not by the values themselves")
+    ctx.ob("ORD-sort", sk, "; ".join(norm(leaf) for _, leaf, _ in cases)[:150] or "sort_key", rets[0] if rets else sk.node, ok, why, clause="with None last")
+    raises = [n for n in body_nodes(srt.node) if isinstance(n, ast.Raise)]
+    ok = any(any(("in" in t.split()) and DIRV in t and "1" in t for k, t in facts_at(srt, r)) for r in raises)
+    ctx.ob("ORD-sort", srt, "dir validated", raises[0] if raises else srt.node, ok, "directions other than 1/-1 are rejected" if ok else
+           "direction is not validated", nontrivial=False)
+    ctx.ob("ORD-sort", srt, "no in-place list.sort", srt.node, not other, "receiver is not sorted in place" if not other else "in-place sort")
